@@ -129,6 +129,26 @@ def literals_of(test: ast.expr, value: bool) -> list[tuple[str, bool]]:
     return [(unparse(test, 400), value)]
 
 
+def conjuncts_nnf(test: ast.expr) -> tuple[list[ast.expr], bool]:
+    """The list L and flag `negated` such that `test` is equivalent to AND(L) (negated False) or to NOT AND(L) (negated
+    True), whatever De Morgan spelling is used: `a and b`, `not (a and b)`, `not a or not b`, `not (not a or not b)`."""
+    def all_negated(values: list[ast.expr]) -> bool:
+        return all(isinstance(v, ast.UnaryOp) and isinstance(v.op, ast.Not) for v in values)
+
+    if isinstance(test, ast.BoolOp) and isinstance(test.op, ast.And):
+        return list(test.values), False
+    if isinstance(test, ast.BoolOp) and isinstance(test.op, ast.Or) and all_negated(test.values):
+        return [v.operand for v in test.values], True  # type: ignore[attr-defined]
+    if isinstance(test, ast.UnaryOp) and isinstance(test.op, ast.Not):
+        inner = test.operand
+        if isinstance(inner, ast.BoolOp) and isinstance(inner.op, ast.And):
+            return list(inner.values), True
+        if isinstance(inner, ast.BoolOp) and isinstance(inner.op, ast.Or) and all_negated(inner.values):
+            return [v.operand for v in inner.values], False  # type: ignore[attr-defined]
+        return [inner], True
+    return [test], False
+
+
 def known_conditions(cfg: CFG, node_ids: Iterable[int]) -> dict[str, bool]:
     """Atomic conditions whose truth value is fixed at ALL the given CFG nodes, because every path from the entry to
     them passes the matching edge of a test (nested `if`, guard clause with early return/continue/raise, `and`-chains
@@ -259,5 +279,5 @@ __all__ = [
     "walk_body", "walk_local", "cfg_of", "find_calls_named", "body_calls", "check_identity_forwarding",
     "loop_var_uses", "guard_tests", "dominated_by_guard", "simple_return_expr", "local_value", "qual",
     "pfind", "pfirst", "phas", "pmatch", "ptests", "name_of", "same_var", "is_var", "canon", "ceq", "defined_by", "expand_conjuncts",
-    "known_conditions", "literals_of",
+    "known_conditions", "literals_of", "conjuncts_nnf",
 ]
